@@ -40,7 +40,7 @@ func blockSequences() {
 		}
 		r.Nontrivial(fmt.Sprintf("datalimit|%d", n))
 	}
-	for _, n := range []int{255, 256, 257, 300} {
+	for _, n := range []int{255, 256, 257, 300, 511, 512, 32767, 32768, 65535, 65536, 65537, 65536 + 255, 65536 + 256, 70000, 131072, 131073} {
 		pb := parameters.NewParameters()
 		for i := 0; i < n; i++ {
 			pb.AddWord(uint16(i))
